@@ -113,10 +113,12 @@ def run(ctx):
         "the authorizer is an arbitrary record of functions in every theorem (Section variable); in the correspondence runs it is the real acl.Authorizer of a generated policy, tabulated over the harness's name universe (node/service x peer, session, intention, query, key, acl read/write)",
         "community-edition build: acl.AuthorizerContext carries only the peer name (enterprise-meta FillAuthzContext stubs)",
         "modelled, not verified: go-memdb result objects being shared (aliasing of the slices the in-place loops mutate), hclog calls, the 2Q LRU eviction of ACLCaches (harness cache large enough), real-time cache age (driven through ACLTokenTTL = 1h / negative), singleflight scheduling (the harness waits for the background refresh through a verif hook)",
-        "not covered: rpc.go maskResultsFilteredByACLs and Server.ResolveIdentityFromToken need a running Server; C09_expired holds for every backend answer, which subsumes the latter",
+        "real endpoints (Internal.NodeDump/ServiceDump, Catalog.ListNodes/ListServices, KVS.List) run on a reduced Server built by a verif hook: real FSM/state store, in-memory raft, real blockingquery.Query / SetQueryMeta / filterACL and a real ACLResolver with ACLs enabled; no RPC forwarding, no networking",
+        "not covered: Server.ResolveIdentityFromToken (C09_expired holds for every backend answer, which subsumes it), the agent-local read filters (agent/acl.go, agent_endpoint.go, event_endpoint.go), the txn endpoint's own flag, and whether every endpoint calls the filter",
         "resolver clock: tokens are placed at least 1 ms before or 10 s after the call, plus tokens that expire 60 ms after being cached and are resolved again 75 ms later; expiry exactly at 'now' is covered for ACLToken.IsExpired only",
     ]
     assumptions = ["authorizer decisions are a function of (method, name, peer) — checked per run by tabulating the real authorizer",
+                   "endpoint scenarios keep 100 ms timing margins; a scenario that stalls twice is counted inconclusive, never as a verdict",
                    "CheckServiceNode.Node/Service, ServiceInfo.GatewayService, IndexedServiceTopology.ServiceTopology are non-nil (as every endpoint produces them)"]
     if not ok:
         cov.update({"evaluations": 0, "distinct_nontrivial": 0, "rule": "proof stage failed", "samples": []})
@@ -293,7 +295,7 @@ def run(ctx):
         "endpoint_scenarios": dict(endpoint_runs),
         "endpoint_cases_oracle_only": oracle_only,
         "case_variants": dict(variants),
-        "input_distribution": "per type: every readable/unreadable arrangement of 0..5 elements under two fixed policies (default deny + prefix read + 'bad' denied; default allow + 'bad' denied), map-iterating branches repeated 4x; nested arrangements for node dumps; random policies (0-3 exact/prefix rules per resource, read/write/deny, acl read/write/deny, default allow 1/3) with 0..6 elements over a 20-name universe, peers 20 %, initial flag set 20 %; malformed stream (nil list entries, nil NodeServices / Node, empty names). Resolver: 3-8 calls per resolver, 4 down policies, TTL fresh/stale, backend done/not done, RPC token/other-dc/nil/not-found/failure, policy-resolution outcomes, expirations none/zero/+1h/+10s/-1h/-1s/-1ms, tokens expiring while cached",
+        "input_distribution": "per type: every readable/unreadable arrangement of 0..5 elements under two fixed policies (default deny + prefix read + 'bad*' denied; default allow + 'bad*' denied), each also with the flag set on entry, with peer-imported elements mixed in, and on an object that was already filtered once (refilled, query meta kept); map-iterating branches repeated 3-4x; nested arrangements for node dumps (2n bits, arranged node sometimes unreadable / in ImportedDump); ManageAll every 10th random policy; real endpoints re-running after a blocked wait and with a token expiring while blocked; random policies (0-3 exact/prefix rules per resource, read/write/deny, acl read/write/deny, default allow 1/3) with 0..6 elements over a 20-name universe, peers 20 %, initial flag set 20 %; malformed stream (nil list entries, nil NodeServices / Node, empty names). Resolver: 3-8 calls per resolver, 4 down policies, TTL fresh/stale, backend done/not done, RPC token/other-dc/nil/not-found/failure, policy-resolution outcomes, expirations none/zero/+1h/+10s/-1h/-1s/-1ms, tokens expiring while cached",
         "samples": samples,
         "exhaustive": False,
     })
